@@ -2,6 +2,7 @@ package main
 
 import (
 	"fmt"
+	"os"
 	"reflect"
 	"sort"
 	"strings"
@@ -356,6 +357,9 @@ func histParseStage(c *Ctx, d *Decl, kinds []string, firstUse string) string {
 	if b.Err != nil || d.resolveLive(b) != "" {
 		return ""
 	}
+	if kind == "shorter-chain" {
+		return histShorterChain(c, d, b, r)
+	}
 	// the mutation is planned first (the first use should touch what it will change); the model moves to state B,
 	// so everything that must be rendered in state A is rendered before
 	var m *histMutation
@@ -488,3 +492,199 @@ func histCase(c *Ctx, d *Decl, kinds []string, firstUses []string) {
 }
 
 var histAllParseKinds = []string{"late-group-on-command", "late-group-on-ancestor", "late-group-in-group", "rename-namespace", "rename-option", "delimiter", "choices-in-place", "choices-replaced", "late-required-group", "late-required-in-group", "none"}
+
+// histChoiceCfg: small declarations in which most argument-taking options carry choices.
+func histChoiceCfg() *DeclCfg {
+	return &DeclCfg{
+		MaxDepth: 2, MaxFan: 2, PCmds: 50, Types: []TypeSpec{{K: KString}, {K: KInt}, {K: KString, W: WSlice}, {K: KUint8}, {K: KDuration}, {K: KString, W: WPtr}, {K: KBool}},
+		OptsMin: 1, OptsMax: 3, SubGroupsMax: 1, NestMax: 1, PNamespace: 30, PLongOnly: 30, PChoices: 80, PByTag: 50, PExec: 30, PSubOptional: 60,
+		ParserOpts: []flags.Options{0, flags.PassDoubleDash, flags.IgnoreUnknown},
+	}
+}
+
+// histShorterChain: a parse that selects a deep command, then a parse on the same parser that stops at one of
+// its ancestors. Only declarations without required options or positional requirements qualify (with them the
+// stale Active chain of the first parse changes which requirement is reported first - not state-free).
+func histShorterChain(c *Ctx, d *Decl, b *Built, r *Rand) string {
+	for _, o := range d.Opts {
+		if o.Required {
+			return ""
+		}
+	}
+	for _, cm := range d.Cmds {
+		if cm.Pos != nil {
+			return "" // (plain words would be needed to get past an ancestor's positionals)
+		}
+	}
+	var deep []*Cmd
+	for _, cm := range d.Cmds {
+		if cm.Depth >= 1 {
+			deep = append(deep, cm)
+		}
+	}
+	if len(deep) == 0 {
+		return ""
+	}
+	x := deep[r.Intn(len(deep))]
+	ch := x.Chain()
+	anc := ch[r.Intn(len(ch)-1)] // a proper ancestor (possibly the root)
+	var args1, args2 []string
+	for _, cm := range ch[1:] {
+		args1 = append(args1, cm.Name)
+	}
+	for _, cm := range anc.Chain()[1:] {
+		w := cm.Name
+		if len(cm.Aliases) > 0 && r.Bool() {
+			w = cm.Aliases[r.Intn(len(cm.Aliases))]
+		}
+		args2 = append(args2, w)
+	}
+	switch r.Intn(3) {
+	case 1:
+		// a word that is no sub-command of the ancestor
+		args2 = append(args2, "zz-no-such-command")
+	case 2:
+		// a flag of the ancestor's scope, if any
+		for _, o := range d.ScopeOf(anc).Addressable(d) {
+			if o.T.IsFlag() && o.Long != "" && d.ScopeOf(anc).Long[d.FullLong(o)] == o {
+				args2 = append(args2, "--"+d.FullLong(o))
+				break
+			}
+		}
+	}
+	if pi := safely(func() { b.P.ParseArgs(append([]string{}, args1...)) }); pi != nil {
+		c.Violate("history:shorter-chain:panic-in-first-use", "first use %q panicked: %s", args1, pi.Value)
+		return "shorter-chain"
+	}
+	sc := &Scenario{D: d, Exp: newExpect(d), Final: anc}
+	sc.Exp.Chain = anc.Chain()
+	c.Note("history", map[string]interface{}{"first_vector": fmt.Sprintf("%q", args1), "second_vector": fmt.Sprintf("%q", args2)})
+	obsA := histObs(b, sc, args2)
+	fresh := d.Build()
+	if fresh.Err != nil {
+		return ""
+	}
+	obsB := histObs(fresh, sc, args2)
+	c.Count("history_stages", 1)
+	if obsA != obsB {
+		c.Violate("history:shorter-chain", "after the parse of %q, the parse of %q on the same parser differs from the same parse on a fresh parser:\n--- re-used parser\n%s--- fresh parser\n%s", args1, args2, obsA, obsB)
+	}
+	return "shorter-chain"
+}
+
+// histEnvStage: [parse, change an env-namespace or the env-namespace delimiter, export the variable under its NEW
+// name, parse] - the option must pick the variable up exactly as on a fresh parser of the changed declaration.
+func histEnvStage(c *Ctx, d *Decl) string {
+	r := c.Sub("history-env")
+	b := d.Build()
+	if b.Err != nil || d.resolveLive(b) != "" {
+		return ""
+	}
+	var cands []*Opt
+	for _, o := range d.Opts {
+		if o.Env != "" && !o.T.IsFunc() && len(o.EnvNsChain()) > 0 {
+			cands = append(cands, o)
+		}
+	}
+	if len(cands) == 0 {
+		return ""
+	}
+	f := cands[r.Intn(len(cands))]
+	var args []string
+	for _, cm := range f.Cmd.Chain()[1:] {
+		args = append(args, cm.Name)
+	}
+	firstUse := []string{"parse", "help"}[r.Intn(2)]
+	oldKey := d.FullEnv(f)
+	os.Unsetenv(oldKey)
+	var pi *PanicInfo
+	if firstUse == "parse" {
+		pi = safely(func() { b.P.ParseArgs(append([]string{}, args...)) })
+	} else {
+		fc := b.P.Command
+		for _, cm := range f.Cmd.Chain()[1:] {
+			if cm.FC != nil {
+				fc.Active = cm.FC
+				fc = cm.FC
+			}
+		}
+		pi = safely(func() {
+			var sink strings.Builder
+			b.P.WriteHelp(&sink)
+			b.P.WriteManPage(&sink)
+		})
+	}
+	if pi != nil {
+		c.Violate("history:env:panic-in-first-use", "first use panicked: %s", pi.Value)
+		return "env"
+	}
+	label := "env-namespace"
+	if r.Chance(1, 3) {
+		label = "env-delimiter"
+		nd := "__"
+		if d.envDelim() == "__" {
+			nd = "_"
+		}
+		d.EnvDelim = nd
+		b.P.EnvNamespaceDelimiter = nd
+	} else {
+		var gs []*Grp
+		for g := f.Grp; g != nil; g = g.Parent {
+			if g.EnvNS != "" && g.FG != nil {
+				gs = append(gs, g)
+			}
+		}
+		if len(gs) == 0 {
+			return ""
+		}
+		g := gs[r.Intn(len(gs))]
+		g.EnvNS = fmt.Sprintf("RN%d", d.NewID())
+		g.FG.EnvNamespace = g.EnvNS
+	}
+	newKey := d.FullEnv(f)
+	val := GenValueText(r, f)
+	if f.T.IsFlag() {
+		val = "true"
+	}
+	if strings.ContainsRune(val, 0) || (f.EnvDelim != "" && strings.Contains(val, f.EnvDelim)) {
+		return ""
+	}
+	os.Setenv(newKey, val)
+	defer os.Unsetenv(newKey)
+	obs := func(bb *Built) string {
+		var err error
+		p := safely(func() { _, err = bb.P.ParseArgs(append([]string{}, args...)) })
+		s := fmt.Sprintf("error: %s", errTypeName(err))
+		if err != nil {
+			s += fmt.Sprintf(" %q", err.Error())
+		}
+		if p != nil {
+			s += fmt.Sprintf(" PANIC %s", p.Value)
+		}
+		return s + fmt.Sprintf("\noption %s = %s\n", f.Field, Canon(f.Val))
+	}
+	c.Note("history", map[string]interface{}{"first_use": firstUse, "vector": fmt.Sprintf("%q", args), "mutation": label, "old_key": oldKey, "new_key": newKey, "value": val})
+	obsA := obs(b)
+	fresh := d.Build()
+	if fresh.Err != nil {
+		return ""
+	}
+	obsB := obs(fresh)
+	c.Count("history_stages", 1)
+	if obsA != obsB {
+		c.Violate("history:"+label+":"+firstUse, "after [%s, %s] the variable %s=%q (formerly %s) is read differently by the same parser than by a fresh parser of the changed declaration:\n--- re-used parser\n%s--- fresh parser\n%s", firstUse, label, newKey, val, oldKey, obsA, obsB)
+	}
+	return label
+}
+
+// The history cases of a property are appended after its ordinary cases (so that k-decoded exhaustive products
+// keep every cell): inHistTail tells whether case c.K lies in that tail.
+func inHistTail(c *Ctx, quick, thorough int64) bool {
+	if c.W.Tier == "race" {
+		return false
+	}
+	if c.W.Tier == "thorough" {
+		return c.K >= thorough
+	}
+	return c.K >= quick
+}
